@@ -9,7 +9,7 @@ LEVEL = "proof"
 MANIFEST = {
     "technique": "Coq proof over a hand-written Gallina model of aac.AudioSpecificConfig / aac.ADTSHeader codecs (bit lists) "
                  "+ complete enumeration of the finite domain on both sides + differential correspondence (extracted OCaml vs Go)",
-    "level_text": "Theorems (coq/c18/C18Theorems.v, 17, all closed under the global context): DecodeAudioSpecificConfig(Encode(c)) = c for every canonical configuration "
+    "level_text": "Theorems (coq/c18/C18Theorems.v, 23, all closed under the global context): DecodeAudioSpecificConfig(Encode(c)) = c for every canonical configuration "
                   "(object types 2/5/29, 16 channel configurations, every frequency 0..2^24-1 incl. the 13 table values; general "
                   "bit-level proof) and again by complete enumeration of the table part inside Coq; the two frequency tables are "
                   "mutually inverse; DecodeADTSHeader(Encode(h)) = (h, 0) for all profiles 1..4, 16 frequency indices, 8 channel "
@@ -17,10 +17,12 @@ MANIFEST = {
                   "earlier sync word the reported offset is the junk length (induction on the junk, incl. ff runs and the sync2 "
                   "re-use path); SetAACDescriptor -> encoded mp4a entry -> DecodeBox -> esds -> DecSpecificInfo -> "
                   "DecodeAudioSpecificConfig returns the configuration built (entry round trip general in the DecConfig bytes); "
-                  "two uint16 accessors/fields are exact only below 65536 and refuted above (known findings F1, F2). On the implementation the complete domain is enumerated on every run "
+                  "two uint16 accessors/fields are exact only below 65536 and refuted above (known findings F1, F2); the bit-list "
+                  "reading of bits.Reader/bits.Writer is tied by proof to the Go-level machines of C13Model (same decoders instantiated "
+                  "with read_plain agree on every byte string; write_plain/flush_plain emit the model's bytes). On the implementation the complete domain is enumerated on every run "
                   "(exhaustive: true): all table configurations, all 16 x 8 x 8185 ADTS headers, every junk length 0..187.",
-    "level_note": "Trusted: Coq kernel, extraction (ExtrOcamlBasic), the OCaml/Go glue, the bit-list reading of bits.Reader/bits.Writer "
-                  "(tied to the code only by the correspondence run). Explicit 24-bit frequencies are covered by the general proof and "
+    "level_note": "Trusted: Coq kernel, extraction (ExtrOcamlBasic), the OCaml/Go glue, the C13Model transcription of bits.Reader/bits.Writer "
+                  "(the bit-list reading used here is proved equivalent to it; C13Model itself is tied to the code by correspondence, here and in C13). Explicit 24-bit frequencies are covered by the general proof and "
                   "sampled (quick) / enumerated completely (thorough) on the implementation. io.Writer/io.Reader failures are not modelled.",
 }
 
@@ -58,7 +60,8 @@ def run(ctx):
     ctx.cov["trusted_base"] = common.TRUSTED_BASE_COMMON + [
         "model: coq/c18/C18Model.v is a hand transcription of aac/aac.go (Encode, DecodeAudioSpecificConfig, getFrequency, the two "
         "frequency maps as association lists) and aac/adts.go (NewADTSHeader, Encode, DecodeADTSHeader incl. the 188-iteration sync "
-        "search); bits.Reader/bits.Writer are read as operations on bit lists (EOF = fewer bits than requested)",
+        "search); bits.Reader/bits.Writer are read as operations on bit lists (EOF = fewer bits than requested), proved equivalent to "
+        "the C13Model machines read_plain / write_plain / flush_plain (coq/c18/C18TieProofs.v)",
         "model of the sample-entry path: coq/c18/C18EntryModel.v (SetAACDescriptor, mp4a entry and esds encoders, the decoder path for "
         "one esds child with DecoderConfig+DecSpecificInfo+SLConfig incl. every size/tag check on that path; anything else is "
         "EUnmodelled and skipped (counted) by the correspondence)",
